@@ -3,14 +3,15 @@
 // Engine B (bounded-exhaustive enumeration on the unmodified proxy). A *history* is a set of scripted client
 // connections to one real martian.Proxy. Four finite spaces are enumerated completely:
 //
-//	core      (both tiers) listener {plain, trafficshape.NewListener, transparent tls.NewListener(l, mitm.TLS())}
-//	          x tunnel content {TLS, plaintext HTTP} (transparent: TLS only, no CONNECT) x authority port {443, 8443}
+//	core      (both tiers) listener {plain, trafficshape.NewListener; transparent: tls.NewListener(l, mitm.TLS()), TLS over
+//	          shaped, shaped over TLS} x tunnel content {TLS, plaintext HTTP} (transparent: TLS only, no CONNECT) x authority port {443, 8443}
 //	          x N = 1..2 (quick) / 1..4 (thorough) requests, every sequence over the target forms {origin-form + Host,
 //	          absolute http://, absolute https://, HTTP/1.0 without Host} x hijack {none, request modifier, response
 //	          modifier of the last request} x handle used by the hijacker {net.Conn, *bufio.ReadWriter}. A hijack at
 //	          request i of a longer history IS the history of length i (nothing can follow a hijack), so every hijack
 //	          index 1..N is covered.
-//	config    (thorough) core with N <= 2, crossed with CONNECT authority spelling {name:443, name:8443, MiXed-case:443,
+//	config    (quick: authority {name:8443, [::1]:443, [::1]:8443} x CONNECT listeners x TLS/plaintext x every form sequence
+//	          of length 1..2 containing a host-less request; thorough:) core with N <= 2, crossed with CONNECT authority spelling {name:443, name:8443, MiXed-case:443,
 //	          IPv4:443, [IPv6]:443, [IPv6]:8443} x client SNI {host of the authority, a different name} x client TLS
 //	          profile {default, ALPN h2+http/1.1 offered, TLS 1.2 only, TLS 1.3 only} x early data {no, first bytes of
 //	          the tunnel (ClientHello resp. first request) in the same segment as the CONNECT head}.
@@ -79,7 +80,10 @@ const (
 )
 
 var (
-	listeners = []string{"plain", "shaped", "transparent"}
+	// plain and shaped are CONNECT proxies; the other three are transparent TLS listeners (the client speaks TLS to the
+	// proxy itself, no CONNECT): tls.NewListener(l), tls.NewListener(trafficshape.NewListener(l)) and
+	// trafficshape.NewListener(tls.NewListener(l)).
+	listeners = []string{"plain", "shaped", "transparent", "tls_over_shaped", "shaped_over_tls"}
 	inners    = []string{"tls", "plain"}
 	forms     = []string{"origin", "abs_http", "abs_https", "nohost"}
 	profiles  = []string{"default", "alpn_h2", "tls12", "tls13"}
@@ -173,7 +177,9 @@ type item struct {
 }
 
 // hasConnect: the client opens tunnels with CONNECT (otherwise it talks TLS to a transparent listener directly).
-func (h History) hasConnect() bool { return h.Space == "nested" || h.Listener != "transparent" }
+func (h History) hasConnect() bool { return h.Space == "nested" || !tlsListener(h.Listener) }
+
+func tlsListener(l string) bool { return l != "plain" && l != "shaped" }
 
 // outerTLS: the client speaks TLS to the proxy itself before anything else.
 func (h History) outerTLS() bool { return h.Listener != "plain" && h.Listener != "shaped" }
@@ -195,7 +201,7 @@ func (h History) entry(ci, phase int) string {
 	switch {
 	case h.Space == "nested":
 		return "nested_tls"
-	case h.Listener == "transparent":
+	case tlsListener(h.Listener):
 		return "transparent_tls"
 	case phase > 0:
 		return "reconnect_" + h.Conns[ci].Phases[phase].Inner
@@ -261,7 +267,7 @@ func enumerate(tier string) []History {
 		for _, hk := range hjs {
 			for _, l := range listeners {
 				for _, in := range inners {
-					if l == "transparent" && in == "plain" {
+					if tlsListener(l) && in == "plain" {
 						continue // a TLS listener cannot be spoken to in cleartext: not a tunnel at all
 					}
 					for _, au := range coreAuths {
@@ -292,6 +298,25 @@ func enumerate(tier string) []History {
 		}
 	}
 	if !thorough {
+		// reduced config space: authority spellings x host-less requests x TLS/plaintext tunnel
+		for n := 1; n <= 2; n++ {
+			for _, l := range []string{"plain", "shaped"} {
+				for _, in := range inners {
+					for _, au := range configAuths {
+						if au.Label != "name_8443" && au.Label != "ipv6_443" && au.Label != "ipv6_8443" {
+							continue
+						}
+						formSeqs(n, func(fs []string) {
+							if !strings.Contains(strings.Join(fs, ","), "nohost") {
+								return
+							}
+							add(History{Space: "config", Listener: l, Hijack: "none",
+								Conns: []Script{{Phases: []Phase{{au.Authority, in, fs}}, TLS: "default", SNI: "same", Auth: au.Label}}})
+						})
+					}
+				}
+			}
+		}
 		return out
 	}
 	// config space
@@ -299,7 +324,7 @@ func enumerate(tier string) []History {
 		for _, hk := range hjs {
 			for _, l := range listeners {
 				for _, in := range inners {
-					if l == "transparent" && in == "plain" {
+					if tlsListener(l) && in == "plain" {
 						continue
 					}
 					for _, au := range configAuths {
@@ -309,7 +334,7 @@ func enumerate(tier string) []History {
 									if in == "plain" && (sni != "same" || prof != "default") {
 										continue // no TLS client in a plaintext tunnel
 									}
-									if l == "transparent" && (early || (isIP(au.Authority) && sni == "same")) {
+									if tlsListener(l) && (early || (isIP(au.Authority) && sni == "same")) {
 										continue // no CONNECT head to coalesce with; a transparent TLS listener needs SNI
 									}
 									if (au.Label == "name_443" || au.Label == "name_8443") && sni == "same" && prof == "default" && !early {
@@ -332,7 +357,7 @@ func enumerate(tier string) []History {
 		for _, l := range listeners {
 			for _, inA := range inners {
 				for _, inB := range inners {
-					if l == "transparent" && (inA == "plain" || inB == "plain") {
+					if tlsListener(l) && (inA == "plain" || inB == "plain") {
 						continue
 					}
 					formSeqs(n, func(fa []string) {
@@ -1471,6 +1496,16 @@ func judge(o *Outcome, st *judgeStats) []V {
 				if ob.TLS {
 					addV(E, "plaintext_request_has_tls_state", at, "plaintext request %d (%s) inside CONNECT has req.TLS != nil", it.idx, it.form)
 				}
+				// The statement names no fallback host for plaintext tunnels: an empty URL.Host is not judged. But a host
+				// that the client never gave and that is not the tunnel's authority either is an invented target.
+				check()
+				if it.form == "nohost" && ob.URLHost != "" && !hostOK(ph.Authority, ob.URLHost) {
+					hostBad = true
+					addV(E, "plaintext_url_host_invented", at, "plaintext request %d has no Host header inside the tunnel to %s, but the modifier sees URL.Host=%q, which is neither empty nor the tunnel authority", it.idx, ph.Authority, ob.URLHost)
+				} else if it.form != "nohost" && !hostOK(ph.Authority, ob.URLHost) {
+					hostBad = true
+					addV(E, "url_host_not_as_given", at, "plaintext request %d (%s) names host %s but the modifier sees URL.Host=%q", it.idx, it.form, hostGiven(ph.Authority), ob.URLHost)
+				}
 			}
 			// "The CONNECT request and all requests inside its tunnel share one session"
 			check()
@@ -2104,9 +2139,9 @@ func main() {
 	rep.Coverage["rule"] = "every history of the spaces core (listener x tunnel content x authority port x form sequences of length 1..N x hijack position/handle), and nested (CONNECT over an outer TLS connection to the proxy itself, then a MITM'd inner handshake), and in the thorough tier config (core with N<=2 x authority spelling x SNI x client TLS profile x early data), pair (two interleaved tunnels on two connections) and reconnect (plaintext tunnel then a second CONNECT on the same connection) is run once through the real proxy; states = distinct per-request modifier views (entry, space, listener, scenario attributes, scheme, secure, TLS state and version, host, response seen); transitions = modifier invocations; non-trivial = anything TestIntegrationMITM/TransparentMITM do not do: >=2 requests on the decrypted connection, a non-origin-form target, a hijack, or any non-default configuration/topology"
 	rep.Coverage["exhaustive"] = rep.Incomplete == "" && executed == len(hs)
 	if tier == "thorough" {
-		rep.Coverage["bounds"] = "core: N<=4 requests, 3 listeners, 2 tunnel contents (transparent: TLS only), ports {443,8443}, 4 target forms per request, 5 hijack variants at the last request (= every index 1..4); nested: 3 TLS listener layerings x outer profile {default, TLS1.2} x N<=3 x 5 hijack variants; config: N<=2 x 6 authority spellings x 2 SNI x 4 TLS profiles x 2 early-data modes (minus combinations that are core or impossible); pair: 2 connections x N<=2 each, all content combinations; reconnect: 1..2 plaintext requests then second CONNECT with TLS/plaintext and 1..2 requests"
+		rep.Coverage["bounds"] = "core: N<=4 requests, 5 listeners, 2 tunnel contents (transparent: TLS only), ports {443,8443}, 4 target forms per request, 5 hijack variants at the last request (= every index 1..4); nested: 3 TLS listener layerings x outer profile {default, TLS1.2} x N<=3 x 5 hijack variants; config: N<=2 x 6 authority spellings x 2 SNI x 4 TLS profiles x 2 early-data modes (minus combinations that are core or impossible); pair: 2 connections x N<=2 each, all content combinations; reconnect: 1..2 plaintext requests then second CONNECT with TLS/plaintext and 1..2 requests"
 	} else {
-		rep.Coverage["bounds"] = "core: N<=2 requests, 3 listeners, 2 tunnel contents (transparent: TLS only), ports {443,8443}, 4 target forms per request, 5 hijack variants at the last request; nested: 3 TLS listener layerings x outer profile {default, TLS1.2} x N<=2 x 5 hijack variants"
+		rep.Coverage["bounds"] = "core: N<=2 requests, 5 listeners, 2 tunnel contents (transparent: TLS only), ports {443,8443}, 4 target forms per request, 5 hijack variants at the last request; nested: 3 TLS listener layerings x outer profile {default, TLS1.2} x N<=2 x 5 hijack variants; config (reduced): 3 authority spellings x {plain, shaped} x {TLS, plaintext} x form sequences of length 1..2 containing nohost"
 	}
 	rep.Finish()
 }
